@@ -2,6 +2,7 @@ import SemantivaModel.Driver.C08
 import SemantivaModel.Driver.C11
 import SemantivaModel.Driver.C12
 import SemantivaModel.Driver.C13
+import SemantivaModel.Driver.C14
 /-!
 `modeldriver`: one JSON object per line in, one per line out.
 `{"m": "<model>.<op>", "id": <any>, ...}` → `{"id": <same>, "ok": ...}` or `{"id":…, "err": "..."}`.
@@ -26,6 +27,8 @@ def dispatch (st : DState) (j : Json) : Except String (DState × Json) := do
     pure ({ st with c13 := s }, r)
   else if m.startsWith "c08." then
     pure (st, ← C08.handle m j)
+  else if m.startsWith "c14." then
+    pure (st, ← C14.handle m j)
   else throw s!"unknown model op {m}"
 
 partial def loop (h : IO.FS.Stream) (out : IO.FS.Stream) (st : DState) : IO Unit := do
